@@ -19,6 +19,12 @@ LEAVES = [
     # async_wait_for_start raises NotRunningException at once when done
     ("Shutdown", "wait_for_start_raises", "_core.py", "Zeroconf.async_wait_for_start", ("if", "self.done", 0),
      [P("self.done", "done", "bool")], "bool", {}),
+    # ... and again after the wait: the event was cleared (another close shut the engine down) or the instance is done
+    ("Shutdown", "wait_for_start_raises_after", "_core.py", "Zeroconf.async_wait_for_start", ("if", "running_event.is_set()", 0),
+     [P("self.engine.running_event.is_set()", "is_set", "bool"), P("self.done", "done", "bool")], "bool", {}),
+    # Zeroconf.close(): the goodbyes are skipped only when the caller is on the instance's *own* loop
+    ("Shutdown", "sync_close_skips_goodbyes", "_core.py", "Zeroconf.close", ("if", "get_running_loop()", 0),
+     [P("self.loop == get_running_loop()", "on_own_loop", "bool")], "bool", {}),
     ("Shutdown", "started", "_core.py", "Zeroconf.started", ("ret",),
      [P("self.done", "done", "bool"), P("self.engine.running_event", "has_event", "bool"),
       P("self.engine.running_event.is_set()", "is_set", "bool")], "bool", {}),
